@@ -207,7 +207,7 @@ def main(tier):
     specs = [s for s in wcommon.valid_specs(tier) if s['name'].startswith(('cont:', 'cont-chunked:'))]
     t0 = time.time()
     results = wrun.run_all(specs)
-    keep = ('no C assert', 'file index well formed', 'sample at vector position j lands', 'every created file has', 'a data file exists only if')
+    keep = ('no C assert', 'file index well formed', 'sample at vector position j lands', 'every created file has', 'a data file exists only if', 'a file whose fill pass')
     tot = wcommon.report(rep, specs, results, lambda nm: nm.startswith(keep))
     rep.ob('continuous-mode write paths explored (unchunked: full-window dataset, row = index - first sample of the file, single index row; chunked: gapped representation)',
            'witness', '%d configurations' % len(specs), tot['q'], tot['s'], tot['paths'])
